@@ -237,16 +237,46 @@ def build_callable(term, log, first_param=None):
     raise ValueError(t)
 
 
-def build_descriptor(term, log):
+class SubClassMethod(classmethod):
+    pass
+
+
+class SubStaticMethod(staticmethod):
+    pass
+
+
+class SubPartialMethod(functools.partialmethod):
+    pass
+
+
+class SubPartial(functools.partial):
+    pass
+
+
+class SubProperty(property):
+    """a user subclass of property (`class lazy(property)`, abc.abstractproperty style)"""
+
+
+class SubCachedProperty(functools.cached_property):
+    pass
+
+
+def build_descriptor(term, log, sub=False):
+    """sub: use user SUBCLASSES of the wrapper types (they are still classmethods, properties, ...)"""
     t = term[0]
+    CM, SM, PM, PR, CP = ((SubClassMethod, SubStaticMethod, SubPartialMethod, SubProperty, SubCachedProperty) if sub else
+                          (classmethod, staticmethod, functools.partialmethod, property, functools.cached_property))
     if t == 'plain':
-        return build_callable(term[1], log, 'self' if term[1][0] == 'fn' else None)
+        f = build_callable(term[1], log, 'self' if term[1][0] == 'fn' else None)
+        if sub and isinstance(f, functools.partial):
+            f = SubPartial(f.func, *f.args, **f.keywords)
+        return f
     if t == 'classmethod':
-        return classmethod(build_callable(term[1], log, 'cls'))
+        return CM(build_callable(term[1], log, 'cls'))
     if t == 'staticmethod':
-        return staticmethod(build_callable(term[1], log))
+        return SM(build_callable(term[1], log))
     if t == 'partialmethod':
-        return functools.partialmethod(build_callable(term[1], log, 'self'), *term[2], **term[3])
+        return PM(build_callable(term[1], log, 'self'), *term[2], **term[3])
     if t == 'property':
         parts = []
         for sub, fp in zip(term[1], ('self', 'self, value', 'self')):
@@ -255,9 +285,9 @@ def build_descriptor(term, log):
             else:
                 spec = dict(sub[1], sig=6)
                 parts.append(make_fn(spec, log, fp))
-        return property(*parts, doc=term[2])
+        return PR(*parts, doc=term[2])
     if t == 'cached_property':
-        return functools.cached_property(make_fn(dict(term[1][1], sig=6), log, 'self'))
+        return CP(make_fn(dict(term[1][1], sig=6), log, 'self'))
     raise ValueError(t)
 
 
@@ -274,9 +304,10 @@ def term_kind(term):
 ARGSETS = [[[], {}], [[1], {}], [[1, 2], {}], [[1, 2, 3], {}], [[1], {'k': 9}], [[], {'y': 4}], [[1, 2], {'zz': 0}]]
 
 
-def exercise(term, desc, log):
-    """put the descriptor into a class, walk every access path; returns outcomes"""
-    K = type('K', (), {'attr': desc, '_c03_instance': True})
+def exercise(term, desc, log, K=None):
+    """put the descriptor into a class (or use the class K that already holds it), walk every access path"""
+    if K is None:
+        K = type('K', (), {'attr': desc, '_c03_instance': True})
     outs = []
     t = term[0]
     raw = K.__dict__['attr']
@@ -342,20 +373,31 @@ def exercise(term, desc, log):
 
 
 def run_desc(c):
-    """c: term, prof ('lp'|'cp'), twice (bool), late (bool: wrap after the class exists)"""
+    """c: term, prof ('lp'|'cp'), twice (bool), late (bool: wrap after the class exists), sub (bool: the wrapper
+    objects are instances of user subclasses of classmethod / property / ...), setattr (bool: the class is created
+    with the ORIGINAL descriptor, which is then decorated and put back with setattr - no __set_name__ call)"""
     log0, log1 = [], []
     term = c['term']
-    d0 = build_descriptor(term, log0)
+    sub = bool(c.get('sub'))
+    d0 = build_descriptor(term, log0, sub)
     ref = exercise(term, d0, log0)
     prof = new_profiler(c['prof'])
     try:
-        d1 = build_descriptor(term, log1)
+        d1 = build_descriptor(term, log1, sub)
         if c.get('late') and term[0] == 'cached_property':
             type('Pre', (), {'attr': d1})      # __set_name__ ran: attrname is set before wrapping
-        w = prof(d1)
-        if c.get('twice'):
-            w = prof(w)
-        got = exercise(term, w, log1)
+        if c.get('setattr'):
+            K = type('K', (), {'attr': d1, '_c03_instance': True})
+            w = prof(K.__dict__['attr'])
+            if c.get('twice'):
+                w = prof(w)
+            setattr(K, 'attr', w)
+            got = exercise(term, w, log1, K)
+        else:
+            w = prof(d1)
+            if c.get('twice'):
+                w = prof(w)
+            got = exercise(term, w, log1)
         leaked = not tool_free()
     except BaseException as e:      # noqa
         got = [['wrap-failed', type(e).__name__, str(e)[:200]]]
@@ -694,6 +736,61 @@ def run_inst(c):
 
 
 # ----------------------------------------------------------------------------
+# kwnames stream: keyword arguments whose NAMES coincide with names the wrappers use internally
+KW_NAMES = ['func', 'self', 'args', 'kwds', 'kw', 'cmd', 'wrapper', 'g', 'input_', 'exc', 'item', 'result', 'cls']
+
+
+def run_kwnames(c):
+    """c: kind (func|gen|coro|agen|tgen), shape (plain|method|static|class|partial|runcall), names (list), prof"""
+    kind = c['kind']
+    body = {'func': '    return (a, sorted(kw.items()))\n',
+            'gen': '    yield a\n    yield sorted(kw.items())\n', 'tgen': '    yield a\n    yield sorted(kw.items())\n',
+            'coro': '    return (a, sorted(kw.items()))\n', 'agen': '    yield a\n    yield sorted(kw.items())\n'}[kind]
+    first = {'method': 'this, ', 'class': 'klass, '}.get(c['shape'], '')
+    src = ('async def ' if kind in ('coro', 'agen') else 'def ') + 'f(' + first + '*a, **kw):\n' + body
+
+    def fresh():
+        ns = {}
+        exec(compile(src, '<c03kw>', 'exec'), ns)
+        return types.coroutine(ns['f']) if kind == 'tgen' else ns['f']
+    kw = {n: i for i, n in enumerate(c['names'])}
+    outs = {}
+    for side in ('ref', 'got'):
+        prof = new_profiler(c['prof']) if side == 'got' else None
+        deco = (lambda x: prof(x)) if prof is not None else (lambda x: x)
+        f = fresh()
+        try:
+            sh = c['shape']
+            if sh == 'plain':
+                g = deco(f)
+                call = lambda: g(1, **kw)
+            elif sh == 'method':
+                K = type('K', (), {'m': deco(f)})
+                call = lambda: K().m(1, **kw)[1:] if kind in ('func', 'coro') else K().m(1, **kw)
+            elif sh == 'static':
+                K = type('K', (), {'m': deco(staticmethod(f))})
+                call = lambda: K.m(1, **kw)
+            elif sh == 'class':
+                K = type('K', (), {'m': deco(classmethod(f))})
+                call = lambda: K.m(1, **kw)
+            elif sh == 'partial':
+                g = deco(functools.partial(f, 0, **{c['names'][0]: 'bound'}))
+                call = lambda: g(1, **{n: v for n, v in kw.items() if n != c['names'][0]})
+            else:   # runcall: prof.runcall(f, ...) vs f(...)
+                call = (lambda: prof.runcall(f, 1, **kw)) if prof is not None else (lambda: f(1, **kw))
+            o = consume(kind, call)
+            if sh in ('method', 'class') and o[0] == 'ret':
+                o = ['ret', canon(o[1])[-1:]] if kind in ('func', 'coro') else o   # drop the bound instance / class
+            outs[side] = canon(o)
+        except BaseException as e:      # noqa
+            outs[side] = ['failed', type(e).__name__, str(e)[:120]]
+        finally:
+            if prof is not None:
+                force_free([prof])
+    return dict(ref=outs['ref'], got=outs['got'], leaked=not tool_free())
+
+
+# ----------------------------------------------------------------------------
 # measured observation (not part of the verdict): where does an argument-binding TypeError of a
 # generator-like callable surface?
 def run_defer(c):
@@ -708,7 +805,7 @@ def run_defer(c):
 
 def run(payload):
     out = {}
-    for key, fn in (('nest', run_nest), ('desc', run_desc), ('meta', run_meta), ('reg', run_reg), ('family', run_family), ('inst', run_inst), ('defer', run_defer)):
+    for key, fn in (('nest', run_nest), ('desc', run_desc), ('meta', run_meta), ('reg', run_reg), ('family', run_family), ('inst', run_inst), ('kwnames', run_kwnames), ('defer', run_defer)):
         res = []
         for c in payload.get(key, []):
             try:
